@@ -657,6 +657,73 @@ theorem budget_utf32toUtf8 (cs : List Char) (h : NoNul cs) (junk : List Int) (n 
       have : (n - 1).toNat = k := by omega
       simp [contB, hz, Std.utf8, this]
 
+/-- the budget of `utf8toUtf16` counts CHARACTERS (a surrogate pair costs one): a positive `n` yields the
+    UTF-16 of exactly the first `n` characters -/
+theorem budget_utf8toUtf16 (cs : List Char) (h : NoNul cs) (junk : List UInt8) (n : Int) (hn : 0 < n) :
+    utf8toUtf16 (Std.utf8 cs ++ 0 :: junk) n = some (Std.utf16 (cs.take n.toNat)) := by
+  induction cs generalizing n with
+  | nil => rw [utf8toUtf16.eq_def]; simp [Std.utf16, Std.utf8]
+  | cons ch t ih =>
+    have h0 : ch.toNat ≠ 0 := h ch (by simp)
+    have ht : NoNul t := fun c hc => h c (by simp [hc])
+    simp only [Std.utf8, List.flatMap_cons, List.append_assoc] at *
+    rw [d16_enc _ _ (enc_char ch h0)]
+    have hu : (if ch.toNat < 65536 then [ch.toNat] else surrogates ch.toNat) = Std.utf16Char ch.toNat := by
+      unfold Std.utf16Char
+      split
+      · rfl
+      · rw [surrogates_std _ (by omega) (by have := char_lt ch; omega)]
+    rw [hu]
+    obtain ⟨k, hk⟩ : ∃ k : Nat, n.toNat = k + 1 := ⟨n.toNat - 1, by omega⟩
+    rw [hk, List.take_succ_cons]
+    by_cases hz : n - 1 = 0
+    · have : k = 0 := by omega
+      subst this
+      simp [contN, hz, Std.utf16]
+    · rw [ih ht (n - 1) (by omega)]
+      have : (n - 1).toNat = k := by omega
+      simp [contN, hz, Std.utf16, this]
+
+/-- likewise `utf16toUtf8`: a positive budget `n` yields the UTF-8 of the first `n` characters (pairs count once) -/
+theorem budget_utf16toUtf8 (cs : List Char) (h : NoNul cs) (junk : List Int) (n : Int) (hn : 0 < n) :
+    utf16toUtf8 ((Std.utf16 cs).map Int.ofNat ++ 0 :: junk) n = some (Std.utf8 (cs.take n.toNat)) := by
+  induction cs generalizing n with
+  | nil => rw [utf16toUtf8.eq_def]; simp [Std.utf16, Std.utf8]
+  | cons ch t ih =>
+    have h0 : ch.toNat ≠ 0 := h ch (by simp)
+    have ht : NoNul t := fun c hc => h c (by simp [hc])
+    simp only [Std.utf16, List.flatMap_cons, List.map_append, List.append_assoc] at *
+    obtain ⟨k, hk⟩ : ∃ k : Nat, n.toNat = k + 1 := ⟨n.toNat - 1, by omega⟩
+    rw [hk, List.take_succ_cons]
+    have hrest : ∀ (pre : List UInt8),
+        contB pre n (utf16toUtf8 (List.map Int.ofNat (List.flatMap (fun c => Std.utf16Char c.toNat) t) ++ 0 :: junk) (n - 1))
+          = some (pre ++ Std.utf8 (t.take k)) := by
+      intro pre
+      by_cases hz : n - 1 = 0
+      · have : k = 0 := by omega
+        subst this
+        simp [contB, hz, Std.utf8]
+      · rw [ih ht (n - 1) (by omega)]
+        have : (n - 1).toNat = k := by omega
+        simp [contB, hz, this]
+    by_cases hb : ch.toNat < 65536
+    · have hu : Std.utf16Char ch.toNat = [ch.toNat] := by simp [Std.utf16Char, hb]
+      rw [hu]
+      simp only [List.map_cons, List.map_nil, List.cons_append, List.nil_append]
+      rw [show Int.ofNat ch.toNat = (ch.toNat : Int) from rfl, e16_bmp ch h0 hb, hrest]
+      simp [Std.utf8]
+    · have hu : Std.utf16Char ch.toNat = [(ch.toNat - 0x10000) / 0x400 + 0xD800, (ch.toNat - 0x10000) % 0x400 + 0xDC00] := by
+        simp [Std.utf16Char, hb]
+      rw [hu]
+      simp only [List.map_cons, List.map_nil, List.cons_append, List.nil_append]
+      have := e16_pair ch (by omega) (List.map Int.ofNat (List.flatMap (fun c => Std.utf16Char c.toNat) t) ++ 0 :: junk) n
+      simp only [Int.ofNat_eq_natCast] at *
+      rw [this, hrest]
+      simp [Std.utf8]
+
+example : utf8toUtf16 ([0xF0, 0x9F, 0x98, 0x80, 0x41, 0x42] ++ [0]) 2 = some [0xD83D, 0xDE00, 0x41] := by decide +kernel
+example : utf16toUtf8 [0xD83D, 0xDE00, 0x41, 0x42, 0] 2 = some [0xF0, 0x9F, 0x98, 0x80, 0x41] := by decide +kernel
+
 /-! ## G obligations: buffer sizes, unit budgets and the scratch offset regenerated from `src/String.cpp` -/
 
 /-- the expressions the String methods hand to the converters, as regenerated from the source on every run,
